@@ -13,7 +13,7 @@ for s in seeds:
     m = json.load(open(mp))
     res = m['detection']['result']
     rules = re.findall(r'\b(C\d\d)-[A-Za-z0-9]+', res)
-    if 'missed' in res.split(';')[0] and 'now' not in res:
+    if res.strip().lower().startswith('missed') and 'now' not in res and 'caught' not in res:
         print('%-5s expected: missed (%s)' % (s, res[:70]))
         continue
     props = sorted(set(rules)) or [m.get('property')]
